@@ -51,11 +51,26 @@ Proof.
   cbn [forallb existsb] in *. apply andb_true_iff in H as [H1 H2]. apply negb_true_iff in H1. rewrite H1. now apply IH.
 Qed.
 
+Lemma strict_textN g : strict_chars (textN g) = true.
+Proof.
+  unfold strict_chars, textN, text_of_items.
+  assert (Hd : forall z, (0 <= z)%Z -> forallb (fun c => is_digit c || (c =? SEMI)) (dec z) = true).
+  { intros z Hz. destruct z as [|p|p]; [reflexivity| |lia].
+    cbn [dec]. pose proof (decN_digits (N.pos p)) as H. induction (decN (N.pos p)) as [|c r IH]; [reflexivity|].
+    cbn [forallb] in *. apply andb_true_iff in H as [H1 H2]. rewrite H1. cbn [orb andb]. now apply IH. }
+  induction g as [|c g IH]; [reflexivity|]. destruct g as [|c' g'].
+  - cbn [map join]. apply Hd. lia.
+  - change (join [SEMI] (map dec (map Z.of_N (c :: c' :: g'))))
+      with (dec (Z.of_N c) ++ SEMI :: join [SEMI] (map dec (map Z.of_N (c' :: g')))).
+    rewrite forallb_app, Hd by lia. cbn [forallb andb]. replace (is_digit SEMI || (SEMI =? SEMI)) with true by reflexivity.
+    exact IH.
+Qed.
+
 Definition parsableN (g : list N) : bool := ok255 g && group_ok g.
 
 Theorem parsable_textN g : g <> [] -> parsable (textN g) = parsableN g.
 Proof.
-  intros Hg. unfold parsable, parsableN. rewrite valid_textN, to_list_textN, all_codes_N by exact Hg.
+  intros Hg. unfold parsable, parsableN. rewrite valid_textN, strict_textN, to_list_textN, all_codes_N by exact Hg.
   destruct (ok255 g); reflexivity.
 Qed.
 
